@@ -64,6 +64,23 @@ func c05Scripts(long bool) func(g *Gen, id string, kind byte) []Action {
 	}
 }
 
+// c05FirstRoute finds the first route of the registration program that is not registered with Any,
+// at top level or inside (plain) groups, and returns it with its enclosing groups, outermost first.
+func c05FirstRoute(ops []RegOp, enclosing []*RegOp) (*RegOp, []*RegOp) {
+	for i := range ops {
+		op := &ops[i]
+		switch {
+		case op.Op == "route" && op.Via != "any":
+			return op, enclosing
+		case op.Op == "group" && op.Via == "":
+			if rt, grs := c05FirstRoute(op.Body, append(append([]*RegOp{}, enclosing...), op)); rt != nil {
+				return rt, grs
+			}
+		}
+	}
+	return nil, nil
+}
+
 func genC05(mode string) func(rng *Rng, sc *Scenario) {
 	return func(rng *Rng, sc *Scenario) {
 		g := NewGen(rng, sc)
@@ -78,18 +95,31 @@ func genC05(mode string) func(rng *Rng, sc *Scenario) {
 		}
 		if mode == "atlimit" {
 			cfg.MaxGlobals = 0
+			cfg.GroupChance = [2]int{1, 2} // the limit counts group + route middleware together
 		}
 		g.GenShape(cfg)
 		if mode == "atlimit" {
-			// registration must refuse 63 or more group + route middleware ("too many handlers"): try 61..64
-			want := rng.Range(61, 64)
-			for i := range sc.Program {
-				op := &sc.Program[i]
-				if op.Op == "route" && op.Via != "any" {
-					for len(op.MW)+len(op.LaterUse) < want {
-						op.MW = append(op.MW, g.newID('r', &cfg))
+			// registration must refuse 63 or more group + route middleware ("too many handlers"): try 61..66,
+			// for a top-level route or for a route inside groups (the total split between the innermost group
+			// and the route, so that each part alone stays under the limit)
+			want := rng.Range(61, 66)
+			if route, groups := c05FirstRoute(sc.Program, nil); route != nil {
+				have := len(route.MW) + len(route.LaterUse)
+				for _, gr := range groups {
+					have += len(gr.MW)
+				}
+				toGroup := 0
+				if len(groups) > 0 {
+					toGroup = rng.Range(0, 45)
+				}
+				for ; have < want; have++ {
+					if toGroup > 0 {
+						inner := groups[len(groups)-1]
+						inner.MW = append(inner.MW, g.newID('m', &cfg))
+						toGroup--
+					} else {
+						route.MW = append(route.MW, g.newID('r', &cfg))
 					}
-					break
 				}
 			}
 		}
@@ -437,6 +467,6 @@ func init() {
 	register(&Profile{Prop: "C05", Name: "concurrent", Quick: 18000, Thorough: 400000, Gen: genC05("concurrent"), Check: checkC05, Rule: rule, Faulty: true})
 	register(&Profile{Prop: "C05", Name: "long", Quick: 6000, Thorough: 100000, Gen: genC05("long"), Check: checkC05, Rule: rule, Faulty: true})
 	register(&Profile{Prop: "C05", Name: "redispatch-abort", Quick: 6000, Thorough: 100000, Gen: genC05Redispatch, Check: checkC05, Rule: rule, Faulty: true})
-	register(&Profile{Prop: "C05", Name: "atlimit", Quick: 600, Thorough: 20000, Gen: genC05("atlimit"), Check: checkC05, Rule: rule, Faulty: true})
+	register(&Profile{Prop: "C05", Name: "atlimit", Quick: 3000, Thorough: 60000, Gen: genC05("atlimit"), Check: checkC05, Rule: rule, Faulty: true})
 	register(&Profile{Prop: "C05", Name: "overlimit", Quick: 900, Thorough: 20000, Gen: genC05("overlimit"), Check: checkC05, Rule: rule, Faulty: true})
 }
